@@ -45,7 +45,9 @@ func vLivingDoc(role int, symbolic bool) vLiving {
 	s += "0 @L1@ INDI\n1 NAME " + l.given + " /" + surname + "/\n1 NAME " + l.altName + " /" + surname + "/\n2 TYPE aka\n1 SEX F\n"
 	s += "1 BIRT\n2 DATE " + VsDecimal(l.year, 4) + "\n2 PLAC " + place + "\n"
 	// further events of the living person, each at a place that carries the secret marker
-	s += "1 BAPM\n2 DATE " + VsDecimal(l.year, 4) + "\n2 PLAC " + l.place + " Chapel, Secretland\n1 RESI\n2 DATE 2010\n2 PLAC " + l.place + " Street\n"
+	s += "1 BAPM\n2 DATE " + VsDecimal(l.year, 4) + "\n2 PLAC " + l.place + " Chapel, Secretland\n1 RESI\n2 DATE 2010\n2 PLAC " + l.place + " Street\n" +
+		// places below attributes and one level further down (not events of the individual)
+		"1 OCCU Clerk\n2 PLAC " + l.place + " Works\n1 EDUC School\n2 PLAC " + l.place + " School\n1 NOTE a note\n2 SOUR @S1@\n3 PLAC " + l.place + " Archive\n"
 	switch vC17Roles[role] {
 	case "burial-but-no-death":
 		// end-of-life events without a death record: the person still counts as living
